@@ -72,7 +72,16 @@ class Entity(ABC):
 
         map_attributes(self, **kwargs)
 
-        self.workspace.register(self)
+        try:
+            self.workspace.register(self)
+        except (RuntimeError, ValueError):
+            # refused (identifier in use): leave no trace of the half-built entity
+            siblings = getattr(self._parent, "_children", None)
+            if siblings is not None and any(child is self for child in siblings):
+                self._parent._children = [  # type: ignore
+                    child for child in siblings if child is not self
+                ]
+            raise
 
     @property
     def allow_delete(self) -> bool:
